@@ -31,10 +31,13 @@ LEVEL_TEXT = ('static analysis: (D1) a kind system for index values (family LABE
               ' and last bin. gene_metrics_by_segment runs end to end on literal bins (a gene whose own bins have no usable coverage is still '
               "listed with the segment's log2); (D4) do_genemetrics hands shift_xx one and the same sex for bins and segments: the stated one, "
               'else the one inferred from the bins. do_breaks runs end to end on literal bins / segments with gene-less chromosomes split into '
-              'several segments before and after the one whose gene is cut. (CLI) the `genemetrics / breaks` command line(s), through a model of '
-              'argparse built from the declarations in commands.py and the real _cmd_ body interpreted with readers, library step and writers '
-              'stubbed: bins and segments in their roles, threshold, minimum bin count, --drop-low-coverage and the sex options reach the report '
-              "functions as given. Does not decide behaviour on interleaved genes (outside the property's premise).")
+              'several segments before and after the one whose gene is cut. D1b has chromosome orders that are not alphabetical (chr2 / chr10 / '
+              "chrX; 9 / 10 / 11; bare names). do_genemetrics runs end to end with segments on literal bins: a gene is kept by its segment's bin "
+              'count (min_probes 3 / 6 / 1), and without stubs genes of 2 / 3 / 4 bins against min_probes. (CLI) the `genemetrics / breaks` '
+              'command line(s), through a model of argparse built from the declarations in commands.py and the real _cmd_ body interpreted with '
+              'readers, library step and writers stubbed: bins and segments in their roles, threshold, minimum bin count, --drop-low-coverage and'
+              " the sex options reach the report functions as given. Does not decide behaviour on interleaved genes (outside the property's "
+              'premise).')
 TECHNIQUE = ("index-kind type system over one function's def-use chains; bounded exhaustive interpretation of by_gene on literal tables with "
              'literal index labels; abstract interpretation of the summary functions on symbolic rows')
 
